@@ -9,6 +9,7 @@ CONSTANTS
   EmitOps = TRUE
   AllowNTL = TRUE
   TwoWrites = TRUE
+  AllowNil = FALSE
 INVARIANTS StateInv NoFuture
 PROPERTY Refines
 ACTION_CONSTRAINT Emit
